@@ -84,4 +84,77 @@ theorem sortLe_eq_of_perm {x y : List Rat} (h : x.Perm y) : sortLe x = sortLe y 
   · exact sortLe_sorted y
   · exact ((sortLe_perm x).trans h).trans (sortLe_perm y).symm
 
+/-! ### all-but-axis iteration -/
+
+theorem flatMap_cons_perm {α β} (l : List α) (g : α → β) (h : α → List β) :
+    (l.flatMap (fun b => g b :: h b)).Perm (l.map g ++ l.flatMap h) := by
+  induction l with
+  | nil => simp
+  | cons a l ih =>
+      simp only [List.flatMap_cons, List.map_cons, List.cons_append]
+      refine List.Perm.cons _ ?_
+      refine (List.Perm.append_left _ ih).trans ?_
+      simp only [← List.append_assoc]
+      exact List.Perm.append_right _ List.perm_append_comm
+
+theorem flatMap_swap_perm {α β γ} (l₁ : List α) (l₂ : List β) (f : α → β → γ) :
+    (l₁.flatMap (fun a => l₂.map (fun b => f a b))).Perm (l₂.flatMap (fun b => l₁.map (fun a => f a b))) := by
+  induction l₁ with
+  | nil => simp
+  | cons a l₁ ih =>
+      simp only [List.flatMap_cons, List.map_cons]
+      exact (List.Perm.append_left _ ih).trans (flatMap_cons_perm l₂ (fun b => f a b) (fun b => l₁.map (fun a => f a b))).symm
+
+theorem visited_perm : ∀ (dims : List Nat) (axis : Nat), axis < dims.length →
+    (visited dims axis).Perm (allIdx dims)
+  | [], axis, h => by simp at h
+  | d :: ds, 0, _ => by
+      have : visited (d :: ds) 0 = (allIdx ds).flatMap (fun t => (List.range d).map (fun k => k :: t)) := by
+        simp [visited, fibreBases, fibre, allIdx, List.flatMap_map]
+      rw [this]
+      exact flatMap_swap_perm (allIdx ds) (List.range d) (fun t k => k :: t)
+  | d :: ds, a + 1, h => by
+      have ih := visited_perm ds a (by simpa using h)
+      have : visited (d :: ds) (a + 1) = (List.range d).flatMap (fun i => (visited ds a).map (fun t => i :: t)) := by
+        simp [visited, fibreBases, fibre, allIdx, List.flatMap_map, List.flatMap_assoc, List.map_flatMap, Function.comp_def]
+      rw [this]
+      simp only [allIdx]
+      exact List.Perm.flatMap_left _ (fun i _ => ih.map _)
+
+
+theorem mem_allIdx_length : ∀ (dims : List Nat) (t : List Nat), t ∈ allIdx dims → t.length = dims.length
+  | [], t, h => by simp [allIdx] at h; simp [h]
+  | d :: ds, t, h => by
+      simp only [allIdx, List.mem_flatMap, List.mem_map] at h
+      obtain ⟨i, _, u, hu, rfl⟩ := h
+      simp [mem_allIdx_length ds u hu]
+
+theorem mem_bases_zero : ∀ (dims : List Nat) (axis : Nat) (t : List Nat), axis < dims.length →
+    t ∈ allIdx (dims.set axis 1) → t.getD axis 0 = 0
+  | [], _, _, h, _ => by simp at h
+  | d :: ds, 0, t, _, ht => by
+      simp only [List.set_cons_zero, allIdx, List.mem_flatMap, List.mem_map, List.mem_range] at ht
+      obtain ⟨i, hi, u, _, rfl⟩ := ht
+      simp; omega
+  | d :: ds, a + 1, t, h, ht => by
+      simp only [List.set_cons_succ, allIdx, List.mem_flatMap, List.mem_map] at ht
+      obtain ⟨i, _, u, hu, rfl⟩ := ht
+      have := mem_bases_zero ds a u (by simpa using h) hu
+      simpa using this
+
+theorem offsetOf_set : ∀ (strides : List Int) (b : List Nat) (axis k : Nat),
+    b.length = strides.length → axis < b.length → b.getD axis 0 = 0 →
+    offsetOf strides (b.set axis k) = offsetOf strides b + strides.getD axis 0 * (k : Int)
+  | [], [], _, _, _, h, _ => by simp at h
+  | [], _ :: _, _, _, h, _, _ => by simp at h
+  | _ :: _, [], _, _, h, _, _ => by simp at h
+  | s :: ss, i :: is, 0, k, _, _, h0 => by
+      have : i = 0 := by simpa using h0
+      subst this
+      simp [offsetOf]; ring
+  | s :: ss, i :: is, a + 1, k, hl, ha, h0 => by
+      have := offsetOf_set ss is a k (by simpa using hl) (by simpa using ha) (by simpa using h0)
+      simp only [List.set_cons_succ, offsetOf, this]
+      simp; ring
+
 end NipyVerif.C16
